@@ -513,4 +513,61 @@ async def survivors(mpc, ctx):
     await mpc.shutdown()
 
 
+def _pc_race_ops(mpc, secint):
+    two = secint(2)
+    return [
+        ('mul', lambda p: p * p, lambda v: v * v),
+        ('schur_prod', lambda p: mpc.sum(mpc.schur_prod([p, two], [two, p])), lambda v: 4 * v),
+        ('in_prod', lambda p: mpc.in_prod([p, two], [p, two]), lambda v: v * v + 4),
+        ('scalar_mul', lambda p: mpc.sum(mpc.scalar_mul(p, [two, two])), lambda v: 4 * v),
+        ('prod', lambda p: mpc.prod([p, two, two]), lambda v: 4 * v),
+        ('matrix_prod', lambda p: mpc.matrix_prod([[p, two]], [[two], [p]])[0][0], lambda v: 4 * v),
+        ('if_else_list', lambda p: mpc.sum(mpc.if_else(secint(1), [p, two], [two, two])), lambda v: v + 2),
+        ('lt', lambda p: (p < 7) + p, lambda v: int(v < 7) + v),
+        ('eq', lambda p: (p == 6) + p, lambda v: int(v == 6) + v),
+        ('abs', lambda p: abs(p - 9), lambda v: abs(v - 9)),
+        ('lsb', lambda p: mpc.lsb(p) + p, lambda v: v % 2 + v),
+        ('mod3', lambda p: p % 3 + p, lambda v: v % 3 + v),
+        ('floordiv', lambda p: p // 4, lambda v: v // 4),
+        ('max', lambda p: mpc.max(p, two), lambda v: max(v, 2)),
+        ('to_bits', lambda p: mpc.sum(mpc.to_bits(p)), lambda v: bin(v).count('1')),
+        ('all', lambda p: mpc.all([p - 5, secint(1)]) + p, lambda v: int(v - 5 == 1) * 0 + (1 if (v - 5) == 1 else 0) + v),
+        ('convert', lambda p: mpc.convert(mpc.convert(p, mpc.SecInt(16)), secint), lambda v: v),
+        ('reshare', lambda p: mpc._reshare(p), lambda v: v),
+        ('sorted', lambda p: mpc.sorted([p, two])[0], lambda v: min(v, 2)),
+        ('if_swap', lambda p: mpc.if_swap(secint(1), p, two)[0], lambda v: 2),
+    ]
+
+
+def _pc_race_program(names):
+    async def prog(mpc, ctx):
+        """Every pc-carrying coroutine is started on an operand that is still on its way from party 0, while the main
+        program waits for a value from the LAST party only and then forks more work: which of the two arrives first differs
+        per party and per schedule, so a coroutine that took its labels from the main program's counter would mislabel."""
+        await mpc.start()
+        secint = mpc.SecInt(8)
+        last = len(mpc.parties) - 1
+        res = []
+        for name, op, ref in _pc_race_ops(mpc, secint):
+            if name not in names:
+                continue
+            a = mpc.input(secint(6), senders=0)       # pending until party 0's share arrives
+            b = mpc.input(secint(3), senders=last)    # pending until the last party's share arrives
+            r = op(a)
+            await mpc.gather(b)
+            g = mpc.output(b * b)
+            res.append([name, await mpc.output(r), await g])
+        ctx.out('r', res)
+        await mpc.shutdown()
+    return prog
+
+
+_ALL_PC_OPS = [n for n, _, _ in _pc_race_ops(None, lambda v: v)] if False else ['mul', 'schur_prod', 'in_prod', 'scalar_mul', 'prod', 'matrix_prod', 'if_else_list', 'lt', 'eq', 'abs',
+                                                                                  'lsb', 'mod3', 'floordiv', 'max', 'to_bits', 'all', 'convert', 'reshare', 'sorted', 'if_swap']
+for _i in range(0, len(_ALL_PC_OPS), 5):
+    _names = _ALL_PC_OPS[_i:_i + 5]
+    PROGRAMS[f'pc_ops_race{_i // 5}'] = dict(name=f'pc_ops_race{_i // 5}', fn=_pc_race_program(_names), ms=(2, 3), tags=set(),
+                                            expect=(lambda m, _names=_names: [('r', [[n, ref(6), 9] for n, _, ref in _pc_race_ops(None, lambda v: v) if n in _names])]))
+
+
 MICRO = ('mod_race', 'reverse_await', 'mul_cmp')
